@@ -396,12 +396,16 @@ type psGS struct {
 }
 
 type psInterp struct {
-	gs    psGS
-	stack []psGS
-	opnd  []string
+	gs     psGS
+	stack  []psGS
+	opnd   []string
+	sx, sy float64 // CTM relative to the default user space (only `scale` occurs)
+	depth  int     // inside { } (procedure bodies of the prologue are not executed here)
 }
 
-func newPSInterp() *psInterp { return &psInterp{gs: psGS{lw: 1, ml: 10}} }
+func newPSInterp() *psInterp { return &psInterp{gs: psGS{lw: 1, ml: 10}, sx: 1, sy: 1} }
+
+func (in *psInterp) pt(x, y float64) hc.P2 { return hc.P2{X: x * in.sx, Y: y * in.sy} }
 
 func (in *psInterp) nums(n int) ([]float64, bool) {
 	if len(in.opnd) < n {
@@ -435,7 +439,7 @@ func (in *psInterp) ellipse(v []float64, ccw bool) {
 	for i := 0; i <= n; i++ {
 		t := (a0 + (a1-a0)*float64(i)/n) * math.Pi / 180
 		ex, ey := rx*math.Cos(t), ry*math.Sin(t)
-		p := hc.P2{X: x + math.Cos(rot)*ex - math.Sin(rot)*ey, Y: y + math.Sin(rot)*ex + math.Cos(rot)*ey}
+		p := in.pt(x+math.Cos(rot)*ex-math.Sin(rot)*ey, y+math.Sin(rot)*ex+math.Cos(rot)*ey)
 		in.gs.path.lineTo(p) // arc draws a line from the current point to the start of the arc
 	}
 }
@@ -445,12 +449,28 @@ func (in *psInterp) run(b []byte) []item {
 	bad := func(why string) { items = append(items, item{kind: "invalid", why: why}); in.opnd = nil }
 	setCol := false
 	for _, t := range scan(b) {
+		if t == "{" {
+			in.depth++
+			continue
+		} else if t == "}" {
+			in.depth--
+			continue
+		} else if 0 < in.depth || strings.HasPrefix(t, "/") || t == "def" {
+			continue
+		}
 		if isNum(t) || t == "[" || t == "]" {
 			in.opnd = append(in.opnd, t)
 			continue
 		}
 		g := &in.gs
 		switch t {
+		case "scale":
+			v, ok := in.nums(2)
+			if !ok {
+				bad(t)
+				continue
+			}
+			in.sx, in.sy = in.sx*v[0], in.sy*v[1]
 		case "moveto", "lineto":
 			v, ok := in.nums(2)
 			if !ok {
@@ -458,9 +478,9 @@ func (in *psInterp) run(b []byte) []item {
 				continue
 			}
 			if t == "moveto" {
-				g.path.moveTo(hc.P2{X: v[0], Y: v[1]})
+				g.path.moveTo(in.pt(v[0], v[1]))
 			} else {
-				g.path.lineTo(hc.P2{X: v[0], Y: v[1]})
+				g.path.lineTo(in.pt(v[0], v[1]))
 			}
 		case "curveto":
 			v, ok := in.nums(6)
@@ -468,7 +488,7 @@ func (in *psInterp) run(b []byte) []item {
 				bad(t)
 				continue
 			}
-			g.path.cubeTo(hc.P2{X: v[0], Y: v[1]}, hc.P2{X: v[2], Y: v[3]}, hc.P2{X: v[4], Y: v[5]})
+			g.path.cubeTo(in.pt(v[0], v[1]), in.pt(v[2], v[3]), in.pt(v[4], v[5]))
 		case "closepath":
 			g.path.close()
 		case "ellipse", "ellipsen":
@@ -550,8 +570,12 @@ func (in *psInterp) run(b []byte) []item {
 			g.path = pb{}
 		case "stroke":
 			if 0 < len(g.path.segs) {
-				items = append(items, item{kind: "stroke", segs: g.path.segs, pv: paintVal{rgb: g.col}, alpha: 1, lw: g.lw, cap: g.cap,
-					join: g.join, ml: g.ml, dash: g.dash, phase: g.off, setPaint: setCol})
+				ds := make([]float64, len(g.dash))
+				for k := range ds {
+					ds[k] = g.dash[k] * in.sx
+				}
+				items = append(items, item{kind: "stroke", segs: g.path.segs, pv: paintVal{rgb: g.col}, alpha: 1, lw: g.lw * in.sx, cap: g.cap,
+					join: g.join, ml: g.ml, dash: ds, phase: g.off * in.sx, setPaint: setCol})
 			}
 			g.path = pb{}
 		default:
